@@ -1,10 +1,11 @@
-\* thorough: every rooted ordered digraph with <= 5 nodes, out-degree <= 2, with and without a recover leaf
+\* thorough: every rooted ordered digraph with <= 5 nodes, out-degree <= 2, with and without a recover leaf (recover only for <= 4 nodes)
 SPECIFICATION Spec
 CONSTANTS
   MaxNodes = 5
   Degs = {0, 1, 2}
   MaxSwitch = 0
   RecDegs = {0}
+  RecMax = 4
   MaxRecNodes = 1
   EmitCases = TRUE
   DesignMax = 4
